@@ -17,6 +17,7 @@ SPEC = {
         "harness/cmd/gen muxsorts (go/ast reader: is the sort of map-collected keys still an unconditional statement in RuntimesToFinalize, stakingAddressMapToSliceByStake, distributeRewards, sortAddresses, EligibleEntities) feeding map_order_irrelevant",
         "harness/cmd/gen muxorder (go/ast reader of the statement order in abciMux.BeginBlock/EndBlock: upgrade handlers before validateSystemTxs, after the apps' EndBlock) feeding exec_block / mux_step_order; muxdrv's mock upgrade backend (a preloaded consensus upgrade whose EndBlock migration bumps MaxTxSize like go/upgrade/migrations/dummy.go), identical on all replicas of a history",
         "harness/cmd/gen muxmapsites (golang.org/x/tools/go/packages + go/types, offline): type-checked enumeration of every range over a map, maps.Keys/Values/All, time.Now, math/rand, crypto/rand, go/select statements, os.Getenv, viper/config/debug-flag reads in 56 packages executed during block processing; coq/Abci/mapsites_reviewed.json is the hand-reviewed classification (trusted: the review itself for the classes ErrorOnly / NotInExecPath / LocalOnly / Deterministic / UnsafeDebugFlag, and the claim that a site classified OrderInsensitive is an instance of the proved fold/per-key/test/arg-max lemmas)",
+        "harness watchdog: every replica operation (Prepare/ProcessProposal, BeginBlock..Commit, restart, twin round trip, the wait for the background load) runs under a 60 s deadline confirmed once with a doubled budget; a blown deadline is a violation naming replica, blocked ABCI call, height and history, and the harness exits normally",
         "process-separated twins (re-exec of the harness binary per replica, JSON line protocol) for a subset of histories; thorough tier: the stream rebuilt with go build -race, data races inside oasis-core reported as findings",
         "vm_compute evaluation of Verif.Abci.Mux.run_case on the recorded cache decisions and dispatch orders (no extraction)",
         "modelled generically, not verified as code: the applications themselves (abstract deterministic functions in the theorems, real code in the harness), Go map iteration inside the apps, the MKVS (root = function of contents is C02), Badger, goroutine interleavings",
